@@ -179,6 +179,24 @@ func codecsPhase(r *rng.R, thorough bool) {
 		emit("cx new", "ok")
 		_ = ie
 		frames := 1 + r.Intn(3)
+		// every string a decoder handed out is kept and looked at again after ALL frames of the
+		// case were loaded and decoded: a decoded value must not change when later frames are read
+		type held struct {
+			kind  string
+			frame int
+			i     int
+			got   string
+			want  []byte
+		}
+		var heldStrs []held
+		checkHeld := func() {
+			for _, h := range heldStrs {
+				if h.got != string(h.want) {
+					propFail("C20 decoded-string-changed-later case=%s kind=%s frame=%d i=%d: the decoder returned %x (as written); after the later frames of the case were loaded and decoded the same string value reads %x", name, h.kind, h.frame, h.i, h.want, []byte(h.got))
+					return
+				}
+			}
+		}
 		var prevF, prevU uint64
 		hashv := uint64(c)
 		classes := map[string]bool{}
@@ -288,6 +306,9 @@ func codecsPhase(r *rng.R, thorough bool) {
 				if err != nil || s != string(ss[i]) {
 					propFail("C20 string-roundtrip case=%s i=%d wrote=%x read=%x err=%v", name, i, ss[i], s, err)
 				}
+				if err == nil && s == string(ss[i]) {
+					heldStrs = append(heldStrs, held{"str", f, i, s, append([]byte(nil), ss[i]...)})
+				}
 				var d string
 				err = ddec.Decode(&d)
 				if err != nil {
@@ -297,6 +318,9 @@ func codecsPhase(r *rng.R, thorough bool) {
 				}
 				if err != nil || d != string(ds[i]) {
 					propFail("C20 dictstring-roundtrip case=%s i=%d wrote=%x read=%x err=%v", name, i, ds[i], d, err)
+				}
+				if err == nil && d == string(ds[i]) {
+					heldStrs = append(heldStrs, held{"dstr", f, i, d, append([]byte(nil), ds[i]...)})
 				}
 			}
 			// reading past the end of each column must be reported as an error, not as data
@@ -372,6 +396,8 @@ func codecsPhase(r *rng.R, thorough bool) {
 				}
 			}
 		}
+		checkHeld()
+		stats["held-strings-rechecked"] += len(heldStrs)
 		if len(classes) >= 2 {
 			note("nontrivial %x", hashv)
 		}
